@@ -99,7 +99,7 @@ Definition toy_hist : hist :=
     (OpAdd (str "bob") (str "secret") false, orc 102 [3; 3]);
     (OpSetDefault 2, orc 0 [9]);
     (OpUpdate (str "alice") (str "Secret"), orc 103 [4; 4]);
-    (OpAdd (str "alice") (str "again"), orc 104 [5; 5]);
+    (OpAdd (str "alice") (str "again") true, orc 104 [5; 5]);
     (OpSetAdmin (str "bob") true, orc 0 [9]);
     (OpRemove (str "root"), orc 0 [9]);
     (OpAuth (str "alice") (str "secret"), orc 0 [9]);
@@ -107,7 +107,8 @@ Definition toy_hist : hist :=
     (OpAuth (str "bob") (str "secret"), orc 0 [9]);
     (OpAuth (str "root") (str "r00t"), orc 0 [9]) ].
 Example C01_nonvacuous :
-  cfg_wf toy_cfg /\ Forall oracle_ok (map snd toy_hist) /  skipn 8 (trace toy_kdf toy_cfg [] toy_hist) =
+  cfg_wf toy_cfg /\ Forall oracle_ok (map snd toy_hist) /\
+  skipn 8 (trace toy_kdf toy_cfg [] toy_hist) =
     [ Some (OAuth false false false 0%Z);
       Some (OAuth true false false 103%Z);
       Some (OAuth true true true 102%Z);
